@@ -503,6 +503,9 @@ pub fn run_op_wrapped(sess: &mut Session, op: Op) -> Option<(Op, Option<Vec<(u64
     let mut failed = false;
     let mut panicked = false;
     let base;
+    // for exchange-to-exchange bindings the other exchange lives on another channel (kept open
+    // until the observation is over: its own close must not be mistaken for output of the call)
+    let ch2 = if let Op::ExchangeBind { .. } = &op { Some(sess.conn.open_channel(None).ok()?) } else { None };
     {
         // wrapper objects come from nowait declares (setup)
         let qname = match &op {
@@ -518,7 +521,9 @@ pub fn run_op_wrapped(sess: &mut Session, op: Op) -> Option<(Op, Option<Vec<(u64
         };
         let qobj = if qname.is_empty() { None } else { ch.queue_declare_nowait(qname.clone(), QueueDeclareOptions::default()).ok() };
         let x_me = ch.exchange_declare_nowait(ExchangeType::Direct, me.clone(), ExchangeDeclareOptions::default()).ok()?;
-        let x_other = ch.exchange_declare_nowait(ExchangeType::Direct, other.clone(), ExchangeDeclareOptions::default()).ok()?;
+        // the other exchange lives on another channel of the connection: whatever is emitted has
+        // to go out on the channel of the handle the call is made on
+        let x_other = ch2.as_ref().unwrap_or(&ch).exchange_declare_nowait(ExchangeType::Direct, other.clone(), ExchangeDeclareOptions::default()).ok()?;
         base = sess.settle();
         let r = catch_unwind(AssertUnwindSafe(|| -> amiquip::Result<()> {
             match &op {
@@ -590,6 +595,7 @@ pub fn run_op_wrapped(sess: &mut Session, op: Op) -> Option<(Op, Option<Vec<(u64
         }
     }
     let obs = if panicked && on_target.is_empty() { None } else { Some(on_target) };
+    drop(ch2);
     sess.settle();
     Some((op, obs, other_ch, failed))
 }
